@@ -429,6 +429,14 @@ fn align_to_4_byte_boundary(writer: &mut Vec<u8>) -> Result<()> {
 	}
 }
 
+fn is_conditional_jump(instruction: &Instruction) -> bool {
+	matches!(instruction,
+		Instruction::IfEq(_) | Instruction::IfNe(_) | Instruction::IfLt(_) | Instruction::IfGe(_) | Instruction::IfGt(_) | Instruction::IfLe(_) |
+		Instruction::IfICmpEq(_) | Instruction::IfICmpNe(_) | Instruction::IfICmpLt(_) | Instruction::IfICmpGe(_) | Instruction::IfICmpGt(_) |
+		Instruction::IfICmpLe(_) | Instruction::IfACmpEq(_) | Instruction::IfACmpNe(_) | Instruction::IfNull(_) | Instruction::IfNonNull(_)
+	)
+}
+
 fn compute_signed_offset(opcode_pos: u16, target: u16) -> i32 {
 	(target as i32) - (opcode_pos as i32)
 }
@@ -1043,6 +1051,11 @@ fn write_code<'a, 'b: 'a>(writer: &mut impl ClassWrite, code: &'b Code, pool: &m
 				Ok(())
 			})()
 				.with_context(|| anyhow!("while writing the instruction {instruction:?}"))?;
+
+			// The inverted branch of the `if_not_x L3; goto_w Lx; L3:` replacement needs an instruction at `L3`.
+			if instruction_index + 1 == code.instructions.len() && is_conditional_jump(&instruction.instruction) && w.len() - opcode_pos as usize > 3 {
+				bail!("cannot write code: the conditional jump {:?} ends the method and its branch offset doesn't fit an i16", instruction.instruction);
+			}
 		}
 
 		if let Some(last_label) = code.last_label {
